@@ -285,6 +285,7 @@ Fixpoint unpack_v (k : pschema) (bits : list pyval) (pos : nat) {struct k} : G p
   match k with
   | KBool => nth_bits bits pos
   | KIntMod m =>
+      if Nat.eqb (bitlen_of m) 0 then ret (PInt 0) else       (* modulus 1: a zero-width field *)
       b0 <- nth_bits bits pos ;;
       let sl := firstn (bitlen_of m) (skipn pos bits) in
       match b0 with
